@@ -1328,6 +1328,23 @@ func (g *builder) vaultSpec(method, v string) spec {
 			costs = append(costs, opGas)
 		case "exec-add-escrow":
 			exec(staking.MethodAddEscrow, &staking.Escrow{Account: g.entAddr(r.Intn(numValidators)), Amount: q(uint64(10 + r.Intn(100)))})
+		case "policy-self":
+			// legal but unusual: the vault itself is given a withdraw policy on its own account
+			if vlt != nil {
+				b.Action.UpdateWithdrawPolicy = &vault.ActionUpdateWithdrawPolicy{Address: vlt.Address(),
+					Policy: vault.WithdrawPolicy{LimitAmount: q(uint64(500 + r.Intn(1000))), LimitInterval: uint64(3 + r.Intn(5))}}
+			} else {
+				b.Action.Suspend = &vault.ActionSuspend{}
+			}
+		case "exec-withdraw-self":
+			// the vault withdraws from itself (caller == From on the hook path)
+			from := g.acctAddr(3)
+			if vlt != nil {
+				from = vlt.Address()
+			}
+			exec(staking.MethodWithdraw, &staking.Withdraw{From: from, Amount: q(uint64(10 + r.Intn(200)))})
+		case "exec-withdraw":
+			exec(staking.MethodWithdraw, &staking.Withdraw{From: g.acctAddr(1 + r.Intn(2)), Amount: q(uint64(10 + r.Intn(200)))})
 		case "policy":
 			b.Action.UpdateWithdrawPolicy = &vault.ActionUpdateWithdrawPolicy{Address: g.acctAddr(3),
 				Policy: vault.WithdrawPolicy{LimitAmount: q(uint64(500 + r.Intn(1000))), LimitInterval: uint64(3 + r.Intn(5))}}
